@@ -49,38 +49,73 @@ func init() {
 				call, ok := ast.Unparen(e).(*ast.CallExpr)
 				return ok && r.P.CalleeFunc(info, call) == getOC
 			}
-			// old ranges: slice filled as ranges[i] = KeyGroupRangeFromProto(oc[i].KeyGroupRange) while ranging over the same list
+			// old ranges: built index-aligned from the old operator checkpoints, either by a full loop
+			// (range or index form) that stores ranges[i] = f(element i), or by sliceu.Map(list, f)
 			var oldRanges types.Object
 			okFill := false
-			ast.Inspect(dp.Decl.Body, func(nd ast.Node) bool {
-				rs, ok := nd.(*ast.RangeStmt)
-				if !ok || !isOCList(rs.X) {
-					return true
-				}
-				i := prog.IdentObj(info, rs.Key)
-				for _, st := range rs.Body.List {
-					if as, ok := st.(*ast.AssignStmt); ok && len(as.Lhs) == 1 {
-						if ix, ok := ast.Unparen(as.Lhs[0]).(*ast.IndexExpr); ok && prog.IdentObj(info, ix.Index) == i {
-							oldRanges = prog.IdentObj(info, ix.X)
-							uses := false
-							ast.Inspect(as.Rhs[0], func(m ast.Node) bool {
-								if id, ok := m.(*ast.Ident); ok && info.Uses[id] == prog.IdentObj(info, rs.Value) {
-									uses = true
-								}
-								return true
-							})
-							okFill = uses
-						}
+			mapFn := r.P.FuncObj("util/sliceu", "Map")
+			for _, lp := range fullLoopsOver(info, dp.Decl.Body, isOCList) {
+				var iv types.Object
+				switch x := lp.Stmt.(type) {
+				case *ast.RangeStmt:
+					iv = prog.IdentObj(info, x.Key)
+				case *ast.ForStmt:
+					if as, ok := x.Init.(*ast.AssignStmt); ok && len(as.Lhs) == 1 {
+						iv = prog.IdentObj(info, as.Lhs[0])
 					}
 				}
-				return true
-			})
+				for _, st := range lp.Body.List {
+					as, ok := st.(*ast.AssignStmt)
+					if !ok || len(as.Lhs) != 1 || len(as.Rhs) != 1 {
+						continue
+					}
+					ix, ok := ast.Unparen(as.Lhs[0]).(*ast.IndexExpr)
+					if !ok || iv == nil || prog.IdentObj(info, ix.Index) != iv {
+						continue
+					}
+					oldRanges = prog.IdentObj(info, ix.X)
+					uses := false
+					inspect(as.Rhs[0], func(m ast.Node) bool {
+						if e, ok := m.(ast.Expr); ok && lp.IsElem(e) {
+							uses = true
+						}
+						return true
+					})
+					okFill = uses
+				}
+			}
+			if oldRanges == nil {
+				inspect(dp.Decl.Body, func(nd ast.Node) bool {
+					as, ok := nd.(*ast.AssignStmt)
+					if !ok || len(as.Lhs) != 1 || len(as.Rhs) != 1 {
+						return true
+					}
+					call, ok := ast.Unparen(as.Rhs[0]).(*ast.CallExpr)
+					if !ok || r.P.CalleeFunc(info, call) != mapFn || len(call.Args) != 2 || !isOCList(call.Args[0]) {
+						return true
+					}
+					lit, ok := ast.Unparen(call.Args[1]).(*ast.FuncLit)
+					if !ok || len(lit.Type.Params.List) != 1 || len(lit.Type.Params.List[0].Names) != 1 {
+						return true
+					}
+					el := info.Defs[lit.Type.Params.List[0].Names[0]]
+					uses := false
+					inspect(lit.Body, func(m ast.Node) bool {
+						if id, ok := m.(*ast.Ident); ok && info.Uses[id] == el {
+							uses = true
+						}
+						return true
+					})
+					oldRanges, okFill = prog.IdentObj(info, as.Lhs[0]), uses
+					return true
+				})
+			}
 			r.Site(dp.Decl.Pos(), "Deploy: old ranges are index-aligned with the old operator checkpoints")
 			if !okFill || oldRanges == nil {
 				r.Fail(dp.Name()+":old-ranges", dp.Decl.Pos(), nil, "the list of old key-group ranges is not built index-by-index from the old operator checkpoints: the indices returned by AssignRanges would pick the wrong checkpoints")
 			}
 			var assignments types.Object
-			ast.Inspect(dp.Decl.Body, func(nd ast.Node) bool {
+			inspect(dp.Decl.Body, func(nd ast.Node) bool {
 				as, ok := nd.(*ast.AssignStmt)
 				if !ok || len(as.Rhs) != 1 {
 					return true
@@ -156,13 +191,13 @@ func init() {
 			// inside the operator loop: Checkpoints: Pick(oc, assignments[i]) with i the loop index over a.operators
 			opsF := r.P.Field("jobs", "Assembly", "operators")
 			okPick := false
-			ast.Inspect(dp.Decl.Body, func(nd ast.Node) bool {
+			inspect(dp.Decl.Body, func(nd ast.Node) bool {
 				rs, ok := nd.(*ast.RangeStmt)
 				if !ok || prog.SelField(info, rs.X) != opsF {
 					return true
 				}
 				i := prog.IdentObj(info, rs.Key)
-				ast.Inspect(rs.Body, func(m ast.Node) bool {
+				inspect(rs.Body, func(m ast.Node) bool {
 					call, ok := m.(*ast.CallExpr)
 					if !ok || r.P.CalleeFunc(info, call) != pick || len(call.Args) != 2 {
 						return true
@@ -185,18 +220,11 @@ func init() {
 			r.Site(assign.Decl.Pos(), "AssignRanges order-independence")
 			fromParam := assign.Obj.Type().(*types.Signature).Params().At(1)
 			independent := false
-			ast.Inspect(assign.Decl.Body, func(nd ast.Node) bool {
-				outer, ok := nd.(*ast.RangeStmt)
-				if !ok || !r.isParam(assign, outer.X, 0) {
-					return true
-				}
-				for _, st := range outer.Body.List {
-					inner, ok := st.(*ast.RangeStmt)
-					if !ok || prog.IdentObj(ai, inner.X) != types.Object(fromParam) {
-						continue
-					}
+			toParam := assign.Obj.Type().(*types.Signature).Params().At(0)
+			for _, outer := range fullLoopsOver(ai, assign.Decl.Body, func(e ast.Expr) bool { return prog.IdentObj(ai, e) == types.Object(toParam) }) {
+				for _, inner := range fullLoopsOver(ai, outer.Body, func(e ast.Expr) bool { return prog.IdentObj(ai, e) == types.Object(fromParam) }) {
 					clean := true
-					ast.Inspect(inner.Body, func(m ast.Node) bool {
+					inspect(inner.Body, func(m ast.Node) bool {
 						if b, ok := m.(*ast.BranchStmt); ok && b.Tok == token.BREAK {
 							clean = false
 						}
@@ -206,12 +234,11 @@ func init() {
 						independent = true
 					}
 				}
-				return true
-			})
+			}
 			if !independent {
 				// then the caller must sort: look for a sort of oldRanges before the call
 				sorted := false
-				ast.Inspect(dp.Decl.Body, func(nd ast.Node) bool {
+				inspect(dp.Decl.Body, func(nd ast.Node) bool {
 					if call, ok := nd.(*ast.CallExpr); ok {
 						if _, ok := isCallToNamed(info, call, "slices", "SortFunc"); ok {
 							sorted = true
@@ -243,7 +270,7 @@ func init() {
 			}
 			merges := false
 			var mergePos token.Pos
-			ast.Inspect(f.Decl.Body, func(nd ast.Node) bool {
+			inspect(f.Decl.Body, func(nd ast.Node) bool {
 				if as, ok := nd.(*ast.AssignStmt); ok && len(as.Lhs) == 1 && len(as.Rhs) == 1 {
 					if ix, ok := ast.Unparen(as.Lhs[0]).(*ast.IndexExpr); ok && prog.SelField(info, ix.X) == levelsF {
 						if call, ok := ast.Unparen(as.Rhs[0]).(*ast.CallExpr); ok {
@@ -261,7 +288,7 @@ func init() {
 				return
 			}
 			sorted := false
-			ast.Inspect(f.Decl.Body, func(nd ast.Node) bool {
+			inspect(f.Decl.Body, func(nd ast.Node) bool {
 				call, ok := nd.(*ast.CallExpr)
 				if !ok || call.Pos() < mergePos {
 					return true
@@ -270,7 +297,7 @@ func init() {
 					if c, ok := isCallToNamed(info, call, nm[0], nm[1]); ok && len(c.Args) >= 1 {
 						// the sorted slice is a level of the composite document
 						uses := false
-						ast.Inspect(c.Args[0], func(m ast.Node) bool {
+						inspect(c.Args[0], func(m ast.Node) bool {
 							if sel, ok := m.(*ast.SelectorExpr); ok && prog.SelField(info, sel) == levelsF {
 								uses = true
 							}
@@ -291,7 +318,7 @@ func init() {
 			if !sorted {
 				// alternatively the level-list constructor sorts
 				nl := r.P.Func("dkv/sst", "NewLevelListOfTables")
-				ast.Inspect(nl.Decl.Body, func(nd ast.Node) bool {
+				inspect(nl.Decl.Body, func(nd ast.Node) bool {
 					if call, ok := nd.(*ast.CallExpr); ok {
 						if _, ok := isCallToNamed(nl.Pkg.TypesInfo, call, "slices", "SortFunc"); ok {
 							sorted = true
@@ -315,14 +342,14 @@ func init() {
 			handlesParam := f.Obj.Type().(*types.Signature).Params().At(2)
 			// loop over all handles
 			okHandles := false
-			ast.Inspect(f.Decl.Body, func(nd ast.Node) bool {
+			inspect(f.Decl.Body, func(nd ast.Node) bool {
 				rs, ok := nd.(*ast.RangeStmt)
 				if !ok || prog.IdentObj(info, rs.X) != types.Object(handlesParam) {
 					return true
 				}
 				okHandles = true
 				r.Site(rs.Pos(), "loop over every checkpoint handle")
-				ast.Inspect(rs.Body, func(m ast.Node) bool {
+				inspect(rs.Body, func(m ast.Node) bool {
 					if _, isLit := m.(*ast.FuncLit); isLit {
 						return false
 					}
@@ -338,7 +365,7 @@ func init() {
 			}
 			// merge loop over rest
 			var mergeLoop *ast.RangeStmt
-			ast.Inspect(f.Decl.Body, func(nd ast.Node) bool {
+			inspect(f.Decl.Body, func(nd ast.Node) bool {
 				rs, ok := nd.(*ast.RangeStmt)
 				if !ok {
 					return true
@@ -361,7 +388,7 @@ func init() {
 			}
 			if id, ok := mergeLoop.X.(*ast.Ident); ok && !okSrc {
 				// multi-assign: compositeCheckpointDoc, rest := docs[0], docs[1:]
-				ast.Inspect(f.Decl.Body, func(nd ast.Node) bool {
+				inspect(f.Decl.Body, func(nd ast.Node) bool {
 					if as, ok := nd.(*ast.AssignStmt); ok && len(as.Lhs) == 2 && len(as.Rhs) == 2 {
 						if prog.IdentObj(info, as.Lhs[1]) == info.Uses[id] && sliceBounds(info, as.Rhs[1]) == "1:" {
 							if ix, ok := ast.Unparen(as.Rhs[0]).(*ast.IndexExpr); ok {
@@ -377,7 +404,7 @@ func init() {
 			if !okSrc {
 				r.Fail(f.Name()+":merge-source", mergeLoop.Pos(), nil, "the merge must fold documents [1:] into document [0]")
 			}
-			ast.Inspect(mergeLoop.Body, func(m ast.Node) bool {
+			inspect(mergeLoop.Body, func(m ast.Node) bool {
 				if b, ok := m.(*ast.BranchStmt); ok {
 					r.Fail(f.Name()+":merge-skips", b.Pos(), nil, "the merge can skip a checkpoint or a level (%s)", b.Tok)
 				}
@@ -385,7 +412,7 @@ func init() {
 			})
 			// every level: inner loop over doc.Levels
 			okLevels := false
-			ast.Inspect(mergeLoop.Body, func(m ast.Node) bool {
+			inspect(mergeLoop.Body, func(m ast.Node) bool {
 				if rs, ok := m.(*ast.RangeStmt); ok && prog.SelField(info, rs.X) == levelsF {
 					okLevels = true
 				}
@@ -396,7 +423,7 @@ func init() {
 			}
 			// selected by id, panic when missing: covered by C14.b for the selection; here the -1 guard
 			guard := false
-			ast.Inspect(f.Decl.Body, func(nd ast.Node) bool {
+			inspect(f.Decl.Body, func(nd ast.Node) bool {
 				if is, ok := nd.(*ast.IfStmt); ok {
 					if b, ok := ast.Unparen(is.Cond).(*ast.BinaryExpr); ok && b.Op == token.EQL {
 						if tv, ok := info.Types[b.Y]; ok && tv.Value != nil && tv.Value.String() == "-1" {
@@ -415,7 +442,7 @@ func init() {
 			seq := r.P.Field("dkv", "DB", "seqNum")
 			lsn := r.P.Field("dkv/sst", "LevelList", "LatestSeqNum")
 			okSeq := false
-			ast.Inspect(st.Decl.Body, func(nd ast.Node) bool {
+			inspect(st.Decl.Body, func(nd ast.Node) bool {
 				if as, ok := nd.(*ast.AssignStmt); ok && len(as.Lhs) == 1 && prog.SelField(si, as.Lhs[0]) == seq {
 					// accepted: LatestSeqNum of the loaded levels, or max(...) including the checkpoint's LastSeqNum
 					if exprUsesField(si, as.Rhs[0], lsn) {
@@ -438,7 +465,7 @@ func init() {
 			end := r.P.Field("dkv/sst", "Table", "endSeqNum")
 			seqNum := r.P.FuncObj("dkv/kv", "Entry.SeqNum")
 			n := 0
-			ast.Inspect(f.Decl.Body, func(nd ast.Node) bool {
+			inspect(f.Decl.Body, func(nd ast.Node) bool {
 				as, ok := nd.(*ast.AssignStmt)
 				if !ok || len(as.Lhs) != 1 || prog.SelField(info, as.Lhs[0]) != end {
 					return true
@@ -474,7 +501,7 @@ func init() {
 				g := r.P.Func("dkv/sst", name)
 				gi := g.Pkg.TypesInfo
 				ok := false
-				ast.Inspect(g.Decl.Body, func(nd ast.Node) bool {
+				inspect(g.Decl.Body, func(nd ast.Node) bool {
 					if call, isC := nd.(*ast.CallExpr); isC && len(call.Args) == 2 {
 						if id, isID := call.Fun.(*ast.Ident); isID && id.Name == "max" && exprUsesField(gi, call, end) {
 							ok = true
@@ -493,7 +520,7 @@ func init() {
 			fromDoc := r.P.Func("dkv/sst", "NewTableFromDocument")
 			r.Site(doc.Decl.Pos(), "TableDocument carries EndSeqNum both ways")
 			okOut, okIn := false, false
-			ast.Inspect(doc.Decl.Body, func(nd ast.Node) bool {
+			inspect(doc.Decl.Body, func(nd ast.Node) bool {
 				if kv, ok := nd.(*ast.KeyValueExpr); ok {
 					if id, ok := kv.Key.(*ast.Ident); ok && id.Name == "EndSeqNum" && prog.SelField(doc.Pkg.TypesInfo, kv.Value) == end {
 						okOut = true
@@ -501,7 +528,7 @@ func init() {
 				}
 				return true
 			})
-			ast.Inspect(fromDoc.Decl.Body, func(nd ast.Node) bool {
+			inspect(fromDoc.Decl.Body, func(nd ast.Node) bool {
 				if kv, ok := nd.(*ast.KeyValueExpr); ok {
 					if id, ok := kv.Key.(*ast.Ident); ok && fromDoc.Pkg.TypesInfo.Uses[id] == types.Object(end) {
 						if sel, ok := ast.Unparen(kv.Value).(*ast.SelectorExpr); ok && sel.Sel.Name == "EndSeqNum" {
@@ -575,7 +602,7 @@ func (r *Run) checkLevelSortCoverage(f *prog.FuncInfo, call *ast.CallExpr, level
 					}
 				}
 				isLen := false
-				ast.Inspect(b.Y, func(m ast.Node) bool {
+				inspect(b.Y, func(m ast.Node) bool {
 					if c, ok := m.(*ast.CallExpr); ok {
 						if id, ok := c.Fun.(*ast.Ident); ok && id.Name == "len" && len(c.Args) == 1 && isLevels(c.Args[0]) {
 							isLen = true
@@ -639,7 +666,7 @@ func (r *Run) checkLevelSortCoverage(f *prog.FuncInfo, call *ast.CallExpr, level
 		skipsZero := false
 		if offset == 0 && argOff == 0 {
 			// needs a guard that skips index 0
-			ast.Inspect(lp.Body, func(m ast.Node) bool {
+			inspect(lp.Body, func(m ast.Node) bool {
 				if is, ok := m.(*ast.IfStmt); ok {
 					if b, ok := ast.Unparen(is.Cond).(*ast.BinaryExpr); ok && iv != nil && prog.IdentObj(info, b.X) == iv {
 						if v, ok := constInt(b.Y); ok {
@@ -678,7 +705,7 @@ func (r *Run) checkLevelSortCoverage(f *prog.FuncInfo, call *ast.CallExpr, level
 				}
 			}
 			okCmp := false
-			ast.Inspect(lit.Body, func(m ast.Node) bool {
+			inspect(lit.Body, func(m ast.Node) bool {
 				c, ok := m.(*ast.CallExpr)
 				if !ok || len(c.Args) != 2 || len(ps) != 2 {
 					return true
